@@ -185,7 +185,11 @@ L_SPECIAL = (0, 1, 31, 32, 33, 63, 64, 65, 8128, 8129, 8159, 8160)
 
 
 def s_bin():
-    return sized_binary(LENS, 300).map(hx)
+    # plus strings that end like something the functions append themselves (block counter 01, 02, ff;
+    # a zero byte; the length suffix of KeyGen)
+    tail = st.tuples(st.binary(max_size=70), st.sampled_from([b"\x01", b"\x02", b"\xff", b"\x00", b"\x00\x30"])).map(
+        lambda t: t[0] + t[1])
+    return st.one_of(sized_binary(LENS, 300), sized_binary(LENS, 300), tail).map(hx)
 
 
 def s_L():
